@@ -1,2 +1,203 @@
-pub fn replay_cmd(_args: &[String]) { unimplemented!() }
-pub fn record_cmd(_args: &[String]) { unimplemented!() }
+//! C14: sparse bit set codec against SparseBitSet.tla.
+use fvcore::{arg_after, guarded, Report, Rng};
+use read_fonts::collections::int_set::sparse_bit_set::to_sparse_bit_set_with_bf;
+use read_fonts::collections::IntSet;
+use serde_json::{json, Value};
+
+fn bytes_of(v: &Value) -> Vec<u8> {
+    v.as_array().unwrap().iter().map(|b| b.as_u64().unwrap() as u8).collect()
+}
+
+fn coalesce(mut rs: Vec<(u64, u64)>) -> Vec<(u64, u64)> {
+    rs.sort();
+    let mut out: Vec<(u64, u64)> = vec![];
+    for (a, b) in rs {
+        match out.last_mut() {
+            Some(last) if a <= last.1 + 1 => last.1 = last.1.max(b),
+            _ => out.push((a, b)),
+        }
+    }
+    out
+}
+
+/// Replays TLC-generated decoder cases on `from_sparse_bit_set_bounded`.
+pub fn replay_cmd(args: &[String]) {
+    let path = arg_after(args, "--cases").expect("--cases");
+    let mut rep = Report::default();
+    let mut nontrivial = 0u64;
+    fvcore::tlc_stream(&path, &["CASE"], |_, c| {
+        rep.evaluations += 1;
+        let bytes = bytes_of(&c["bytes"]);
+        let bias = c["bias"].as_u64().unwrap() as u32;
+        let max = c["max"].as_u64().unwrap() as u32;
+        let exp_err = c["err"].as_bool().unwrap();
+        let exp_ranges = coalesce(
+            c["ranges"].as_array().unwrap().iter().map(|r| (r[0].as_u64().unwrap(), r[1].as_u64().unwrap())).collect(),
+        );
+        let exp_rem = c["rem"].as_u64().unwrap() as usize;
+        let r = guarded(|| {
+            IntSet::<u32>::from_sparse_bit_set_bounded(&bytes, bias, max).map(|(set, rem)| {
+                (set.iter_ranges().map(|r| (*r.start() as u64, *r.end() as u64)).collect::<Vec<_>>(), rem.len(), set.len())
+            })
+        });
+        let bad = match r {
+            Err(p) => Some(format!("panic: {p}")),
+            Ok(Err(_)) => (!exp_err).then(|| "decoder failed, specification decodes".to_string()),
+            Ok(Ok((ranges, rem, len))) => {
+                if exp_err {
+                    Some(format!("decoder returned {ranges:?}, specification says error"))
+                } else if ranges != exp_ranges {
+                    Some(format!("members {ranges:?}, specification {exp_ranges:?}"))
+                } else if rem != exp_rem {
+                    Some(format!("remainder {rem} bytes, specification {exp_rem}"))
+                } else if len != exp_ranges.iter().map(|(a, b)| b - a + 1).sum::<u64>() {
+                    Some(format!("len() {len} disagrees with members {ranges:?}"))
+                } else {
+                    None
+                }
+            }
+        };
+        if !exp_err && !exp_ranges.is_empty() {
+            nontrivial += 1;
+        }
+        if bias == 0 && max >= 1_000_000_000 {
+            // the unbounded entry point must agree
+            let r2 = guarded(|| IntSet::<u32>::from_sparse_bit_set(&bytes).map(|s| s.iter_ranges().map(|r| (*r.start() as u64, *r.end() as u64)).collect::<Vec<_>>()));
+            match r2 {
+                Err(p) => rep.violation(&format!("from_sparse_bit_set panic: {p}"), json!({"kind": "sbs-case", "case": c})),
+                Ok(Err(_)) if !exp_err => rep.violation("from_sparse_bit_set failed, specification decodes", json!({"kind": "sbs-case", "case": c})),
+                Ok(Ok(rs)) if exp_err || rs != exp_ranges => rep.violation("from_sparse_bit_set disagrees with specification", json!({"kind": "sbs-case", "case": c})),
+                _ => {}
+            }
+        }
+        if let Some(b) = bad {
+            rep.violation(&b, json!({"kind": "sbs-case", "case": c}));
+        } else if rep.evaluations % 9973 == 1 {
+            rep.sample(c.clone());
+        }
+    });
+    rep.distinct = nontrivial;
+    rep.traces = rep.evaluations;
+    rep.finish();
+}
+
+fn encode(set: &IntSet<u32>, code: u64) -> Vec<u8> {
+    match code {
+        0 => to_sparse_bit_set_with_bf::<2>(set),
+        1 => to_sparse_bit_set_with_bf::<4>(set),
+        2 => to_sparse_bit_set_with_bf::<8>(set),
+        _ => to_sparse_bit_set_with_bf::<32>(set),
+    }
+}
+
+/// Records encode / decode events from the real codec for SparseBitSetTrace.tla.
+pub fn record_cmd(args: &[String]) {
+    let seed: u64 = arg_after(args, "--seed").map(|s| s.parse().unwrap()).unwrap_or(0);
+    let n: usize = arg_after(args, "--cases").map(|s| s.parse().unwrap()).unwrap_or(300);
+    let outp = arg_after(args, "--out").expect("--out");
+    let mut rng = Rng::new(seed ^ 0x5b5);
+    let mut rep = Report::default();
+    let mut ev = vec![];
+    let limits: [u64; 8] = [1, 2, 8, 64, 600, 70_000, 1 << 20, 1 << 30];
+    for i in 0..n {
+        // ---- encode: random set shapes (points, runs, dense blocks aligned to node sizes)
+        let lim = limits[rng.below(limits.len() as u64) as usize];
+        let mut set = IntSet::<u32>::empty();
+        let k = rng.below(12);
+        for _ in 0..k {
+            match rng.below(4) {
+                0 => {
+                    set.insert(rng.below(lim) as u32);
+                }
+                1 => {
+                    let a = rng.below(lim);
+                    let b = (a + rng.below(40)).min(lim - 1).min(a + 300);
+                    set.insert_range(a as u32..=b as u32);
+                }
+                2 => {
+                    // an aligned power-of-two block: exercises the filled-node shortcut
+                    let sz = 1u64 << rng.below(9);
+                    let a = (rng.below(lim) / sz) * sz;
+                    set.insert_range(a as u32..=((a + sz - 1).min(lim - 1)) as u32);
+                }
+                _ => {
+                    set.insert((lim - 1 - rng.below(lim.min(3))) as u32);
+                }
+            }
+        }
+        let ranges: Vec<(u64, u64)> = set.iter_ranges().map(|r| (*r.start() as u64, *r.end() as u64)).collect();
+        for code in 0..4u64 {
+            let r = guarded(|| encode(&set, code));
+            match r {
+                Err(p) => rep.violation(&format!("encoder panic: {p}"), json!({"kind": "sbs-encode", "ranges": ranges, "code": code})),
+                Ok(bytes) => {
+                    // real round trip + remainder with trailing bytes
+                    let mut with_tail = bytes.clone();
+                    with_tail.extend_from_slice(&[0xAB, 0xCD]);
+                    let back = guarded(|| IntSet::<u32>::from_sparse_bit_set_bounded(&with_tail, 0, u32::MAX).map(|(s, rem)| (s, rem.len())));
+                    match back {
+                        Ok(Ok((s, 2))) if s == set => {}
+                        other => rep.violation(
+                            &format!("decode(encode(S)) != S or wrong remainder: {:?}", other.map(|r| r.map(|(s, n)| (s.iter_ranges().take(8).collect::<Vec<_>>(), n)))),
+                            json!({"kind": "sbs-encode", "ranges": ranges, "code": code, "bytes": bytes}),
+                        ),
+                    }
+                    if bytes.len() <= 4096 {
+                        ev.push(json!({"op": "encode", "code": code, "ranges": ranges, "bytes": bytes}));
+                        rep.evaluations += 1;
+                    }
+                }
+            }
+        }
+        if i % 7 == 0 {
+            let r = guarded(|| set.to_sparse_bit_set());
+            match r {
+                Ok(bytes) => {
+                    let code = (bytes[0] % 4) as u64;
+                    ev.push(json!({"op": "encode", "code": code, "ranges": ranges, "bytes": bytes}));
+                }
+                Err(p) => rep.violation(&format!("to_sparse_bit_set panic: {p}"), json!({"kind": "sbs-encode", "ranges": ranges})),
+            }
+        }
+        // ---- decode: random (often malformed) streams
+        for _ in 0..3 {
+            let code = rng.below(4);
+            let maxh = [30u64, 15, 10, 6][code as usize]; // keep BF^H <= 2^30 so TLC can evaluate it
+            let h = if rng.chance(1, 10) { rng.below(32) } else { rng.below(maxh.min(8) + 1) };
+            if h > maxh && h <= [31u64, 16, 11, 7][code as usize] {
+                continue; // valid height whose values exceed TLC's integers
+            }
+            let mut bytes = vec![(code + 4 * h + if rng.chance(1, 8) { 128 } else { 0 }) as u8];
+            let blen = rng.below(10);
+            for _ in 0..blen {
+                bytes.push(*rng.pick(&[0u8, 0, 1, 2, 3, 0x0F, 0x10, 0x80, 0xAA, 0xFF, 0x55]));
+            }
+            if rng.chance(1, 3) {
+                for b in bytes.iter_mut().skip(1) {
+                    *b = rng.below(256) as u8;
+                }
+            }
+            let bias = *rng.pick(&[0u32, 0, 1, 7, 1000, 1 << 20]);
+            let max = *rng.pick(&[0u32, 5, 100, 70_000, (1 << 30) - 1, (1 << 30) - 1]);
+            let r = guarded(|| {
+                IntSet::<u32>::from_sparse_bit_set_bounded(&bytes, bias, max)
+                    .map(|(s, rem)| (s.iter_ranges().map(|r| (*r.start() as u64, *r.end() as u64)).collect::<Vec<_>>(), rem.len()))
+            });
+            match r {
+                Err(p) => rep.violation(&format!("decoder panic: {p}"), json!({"kind": "sbs-decode", "bytes": bytes, "bias": bias, "max": max})),
+                Ok(Err(_)) => ev.push(json!({"op": "decode", "bytes": bytes, "bias": bias, "max": max, "err": true, "ranges": [], "rem": 0})),
+                Ok(Ok((ranges, rem))) => {
+                    if ranges.len() <= 300 {
+                        ev.push(json!({"op": "decode", "bytes": bytes, "bias": bias, "max": max, "err": false, "ranges": ranges, "rem": rem}))
+                    }
+                }
+            }
+            rep.evaluations += 1;
+        }
+    }
+    rep.traces = 1;
+    rep.distinct = ev.len() as u64;
+    rep.sample(ev.get(5).cloned().unwrap_or(json!(null)));
+    fvcore::write_ndjson(&outp, &ev);
+    rep.finish();
+}
